@@ -21,6 +21,7 @@ ASSUMPTIONS = ["resolvers are finite tables", "settings whose substituted text p
                "(the code re-types spliced text through parse.Value)"]
 
 WORDS = ["alpha", "beta", "gam ma", "delta", "x-y", "q", "zz top", "cost$", "a}b", "$"]
+OPWORDS = ["http://h:1", "a:b:c", "k:+v", "x:?y", "is required: define it"]
 NAMES = ["n0", "n1", "n2", "n3", "o.k", "o.j", "p"]
 
 
@@ -207,7 +208,8 @@ def rand_tmpl(rng, depth, names):
         else:
             op = rng.pick([":", ":+", ":?"])
             nm = [("lit", rng.pick(names))]
-            out.append(("op", op, nm, rand_tmpl(rng, depth - 1, names) if rng.chance(0.8) else [("lit", rng.pick(WORDS))]))
+            # (the text behind an operator may itself contain separators: they are text there)
+            out.append(("op", op, nm, rand_tmpl(rng, depth - 1, names) if rng.chance(0.7) else [("lit", rng.pick(WORDS + OPWORDS))]))
     return out
 
 
@@ -364,9 +366,26 @@ def gen(rng, tier):
             merges.insert(rng.below(2), {"b": M([("later", S(lv))]), "opts": copts})
         if rng.chance(0.3):
             merges.append({"b": M([("unrelated", A([S("${x}")]))]), "opts": copts})
+        if rng.chance(0.4):
+            # the same lists / objects merged over themselves (index-wise merge of a list over an existing list) before the
+            # name is redefined: the elements that end up in the tree resolve in that tree
+            merges.insert(0, {"b": M(body), "opts": copts})
         reads.append({"r": "view"}); expect.append(None)
         yield {"k": "eval", "from": M(rng.shuffle([("x", S(x0))] + body)), "opts": copts, "merges": merges, "ropts": copts, "reads": reads, "expect": expect,
                "repeat": 2, "_tag": "eval/late-binding-containers", "_nt": True, "_sig": "late|%d|%s|%s" % (shape, later, x0 == x1)}
+    # one Config object used twice: merged into the root and embedded in an Env config; each copy resolves in its own tree
+    for _ in range(n // 12):
+        w1, w2 = rng.pick(W), rng.pick(W)
+        copts = [opt("PathSep", "."), opt("VarExp")]
+        tmpl = {"shared": "T", "c": {"v": M([("greet", S("hello ${name}")), ("lst", A([S("${name}!"), S("n=${name}")])), ("deep", M([("g", S("<${name}>"))]))]), "opts": copts}}
+        frm = M([("name", S(w1)), ("s", S("${greet} / ${e.greet}")), ("s2", S("${e.lst.0} + ${lst.0}")), ("s3", S("${deep.g}${e.deep.g}${lst.1}"))])
+        env = {"o": "Env", "v": M([("name", S(w2)), ("e", tmpl)]), "opts": [opt("PathSep", ".")]}
+        order = rng.chance(0.5)
+        reads = [{"r": "get", "type": "String", "name": nm, "idx": -1} for nm in (["s", "s2", "s3"] if order else ["s3", "s2", "s"])]
+        want = {"s": "hello %s / hello %s" % (w1, w2), "s2": "%s! + %s!" % (w2, w1), "s3": "<%s><%s>n=%s" % (w1, w2, w1)}
+        yield {"k": "eval", "from": frm, "opts": copts, "merges": [{"b": tmpl, "opts": copts}], "ropts": copts + [env], "reads": reads + [{"r": "view"}],
+               "expect": [{"ok": {"s": want[r["name"]]}} for r in reads] + [None], "repeat": 1,
+               "_tag": "eval/shared-template", "_nt": True, "_sig": "shared|%s|%s" % (order, w1 == w2)}
     # malformed expressions: compared with the model
     bad = ["${", "${a", "${a:", "a}", "$", "$$", "${}", "${:x}", "${a:+}", "${a:?}", "${${}}", "$}", "${a}}", "x:${n0}:y", "${n0:${", "${n0:$}", ":", "${ n0 }",
            "${n0}$", "$${n0}", "${n0:+${n1:?e}}", "${n9:?msg ${n0}}", "${n0.x}", "${o}", "${o.k.z}", "${0}", "[${n0}]", "${n0},${n1}", "{a: ${n0}}"]
